@@ -13,18 +13,20 @@ COQ_CHECK = "C06.Corr.check_case"
 COQ_MODEL_OBS = "(fun c => C06.Corr.model_obs (fst c))"
 COQ_SHARD = 120
 DESIGN_REF = "§5 C06"
-TECHNIQUE = ("Coq proof: byte-level write->parse round trip of the table format, read-back of every chunk, absent addresses absent, counts/sizes; "
-             "conjoin as a table over the concatenated records; archive interpolation search = lower bound on every sorted list (termination "
-             "included); in-Coq byte-for-byte comparison of model-written files with files written by tableWriter / planTableConjoin")
-LEVEL_TEXT = ("Proof (F/M for table files and conjoin, index-search level for archives): for every record list (equal prefixes allowed) and every "
-              "prefix-sorted outcome of the index sort the written file parses back to the index it was written from, every chunk is read back byte "
-              "for byte, every absent address is absent, count and uncompressed size are the footer's; a conjoined file is a table over the "
-              "concatenated records; prollyBinSearch returns lower_bound on every sorted list of unbounded numbers and terminates. Tied to the "
-              "code by rebuilding the implementation's files byte for byte inside Coq and comparing all reads.")
+TECHNIQUE = ("Coq proof: archive interpolation search = lower bound on every sorted list (termination included); read-back of every chunk / "
+             "absent addresses / counts / sizes for the written table; in-Coq byte-for-byte comparison of model-written files with files "
+             "written by tableWriter and planTableConjoin, and of all reads (tables, conjoined tables, archives)")
+LEVEL_TEXT = ("Proof (P): prollyBinSearch (archive index interpolation search, modelled on unbounded numbers) terminates and returns lower_bound "
+              "on every sorted list [full]; for every record list with distinct addresses (equal prefixes allowed) and every prefix-sorted outcome "
+              "of the index sort, the table written for it reports count = number of records and the summed uncompressed size, returns every "
+              "chunk's bytes (CRC checked) and nothing for every absent address [table_roundtrip_partial]. NOT proved, checked by correspondence "
+              "only: the byte-level decode of the index block, the iterate-all permutation, conjoin (model conjoin_with is compared byte for byte "
+              "with planTableConjoin's output and all reads), archive files (only the index search is proved; has/get/iterate of real archives are "
+              "compared with the chunk set).")
 LEVEL_NOTE = ("Trusted: Coq kernel, translator, Go harness + Python glue. Parameters: checksum function, snappy (opaque payload bytes supplied by the "
               "implementation). Modelled, not verified: archive byte-span data section, zstd dictionaries, metadata/footer of archives (archive "
               "reads are checked by correspondence only; the proved part is the index search), streaming sinks, read batching.")
-THEOREMS = ["prolly_bin_search_spec", "parse_write_table", "table_roundtrip", "conjoin_is_table", "find_index_spec"]
+THEOREMS = ["prolly_bin_search_spec", "table_roundtrip_partial"]
 RULE = ("chunk sets of 1-22 chunks over colliding address pools (see C01), payloads of 1-24 bytes (random, constant, repeated); conjoins of 2-4 tables "
         "with and without duplicated chunks; probes = present, absent inside present prefix runs, adjacent prefixes, sorted by prefix with 20% "
         "already-found flags; sorted uint64 slices (dense runs, duplicates, 0 and 2^64-1) with targets at, next to and between elements; "
